@@ -909,6 +909,15 @@ func (cs *crashState) lossFact(key string, t int64) string {
 			return "file-creation-not-durable"
 		}
 	}
+	// a variable-length interval is extended in place: the data block is rewritten
+	// (old and new records together), then the 24-byte index record is updated. If
+	// the index update is lost while the rewritten data survives, the old index
+	// record covers only the head of the new block.
+	for _, op := range cs.dropped {
+		if op.Path == path && op.Kind == simos.OpWrite && len(op.Data) == 24 && strings.Contains(op.Site, "WriteBufferToFileIndirect") {
+			return "index-update-not-durable"
+		}
+	}
 	return "data-not-durable"
 }
 
